@@ -186,9 +186,10 @@ Lemma step_tgt : forall s l,
   \/ (exists r, l = TStop r /\ tgt (step s l) = tgt_stop r None (tgt s))
   \/ (l = TKill /\ tgt (step s l) = tgt_kill None (tgt s))
   \/ (l = TDrain /\ tgt (step s l) = tgt_drain (now s) (tgt s))
-  \/ (l = TgtStart /\ tgt (step s l) = tgt_start (tgt s)).
+  \/ (l = TgtStart /\ tgt (step s l) = tgt_start (tgt s))
+  \/ (l = TgtPostStop /\ tgt (step s l) = tgt_post_stop (now s) (tgt s)).
 Proof.
-  intros. destruct l; simpl; eauto 10;
+  intros. destruct l; simpl; eauto 12;
     try (right; left; split; [reflexivity|intros ? ? ? (F & _); discriminate F]).
   - destruct (nth_error (timers s) i) eqn:E.
     + unfold poll_timer. destruct (poll_eff _ _ _) eqn:P; simpl.
@@ -620,6 +621,39 @@ Proof.
   - rewrite (H1 eq_refl). split; [discriminate|]. intros tl X; inversion X; subst; lia.
 Qed.
 
+Lemma tgt_ok_exit : forall s r o, tgt_ok s ->
+  (forall i, o = Some i -> origin_ok s i r (now s)) -> g_status (tgt s) <> Stopped ->
+  tgt_ok (mkState (now s) (tgt_exit (now s) r o (tgt s)) (timers s) (effs s)).
+Proof.
+  intros s r o [Hmb Hlog Hdel Hstop Hkill Hexit Hexl Hest Hleft Hstart] OO NS.
+  destruct (note_left_ok (now s) (tgt s) Hleft) as (NL1 & NL2).
+  constructor; simpl; auto.
+  - intros i k [].
+  - destruct Hdel as (rest & D1 & D2). exists (ticks (g_mbox (tgt s)) ++ rest). split; auto.
+    intros X; congruence.
+  - discriminate.
+  - discriminate.
+  - intros r' i t G. inversion G; subst. split; [lia|]. apply OO. auto.
+  - intros r' o' te i k t G IN. inversion G; subst. apply Hlog in IN. lia.
+  - split; auto. discriminate.
+  - split; auto. split; [intro X; congruence|discriminate].
+  - discriminate.
+Qed.
+
+Lemma tgt_ok_stopping : forall s r o, tgt_ok s ->
+  (forall i, o = Some i -> origin_ok s i r (now s)) -> g_status (tgt s) <> Stopped ->
+  tgt_ok (mkState (now s) (tgt_stopping (now s) r o (tgt s)) (timers s) (effs s)).
+Proof.
+  intros s r o [Hmb Hlog Hdel Hstop Hkill Hexit Hexl Hest Hleft Hstart] OO NS.
+  destruct (note_left_ok (now s) (tgt s) Hleft) as (NL1 & NL2).
+  constructor; simpl; auto.
+  - destruct Hdel as (rest & D1 & D2). exists rest. split; auto.
+  - intros r' i G. inversion G; subst. apply OO. auto.
+  - split; [|discriminate]. intro X. apply Hest in X. congruence.
+  - split; auto. split; [intro X; congruence|discriminate].
+  - discriminate.
+Qed.
+
 Lemma tgt_ok_step : forall s l, Inv1 s -> tgt_ok s -> tgt_ok (step s l).
 Proof.
   intros s l (TO & EO & ND & SC) OK. pose proof (step_now s l) as L.
@@ -628,7 +662,7 @@ Proof.
   assert (OR0 : forall i r t, origin_ok s i r t -> origin_ok (step s l) i r t)
     by (intros; eapply origin_ok_step; eauto; lia).
   destruct (step_tgt s l) as
-    [(i & tm & w & F & TG)|[(TG & NF)|[(-> & TG)|[(r & -> & TG)|[(-> & TG)|[(-> & TG)|(-> & TG)]]]]]].
+    [(i & tm & w & F & TG)|[(TG & NF)|[(-> & TG)|[(r & -> & TG)|[(-> & TG)|[(-> & TG)|[(-> & TG)|(-> & TG)]]]]]]].
   - (* a timer task fires *)
     pose proof F as (-> & N & PE).
     destruct (fire_eff_ok _ _ _ _ (TO _ _ N) PE) as (NI & EOK & SK & NK).
@@ -679,36 +713,19 @@ Proof.
     pose proof (effs_same_or_fire s l NF) as E.
     apply tgt_ok_carry with (s := s); rewrite ?TG, ?E; auto. apply OK.
   - (* one iteration of the target's loop *)
-    destruct OK as [Hmb Hlog Hdel Hstop Hkill Hexit Hexl Hest Hleft Hstart].
+    pose proof OK as [Hmb Hlog Hdel Hstop Hkill Hexit Hexl Hest Hleft Hstart].
     unfold step in *. simpl. unfold tgt_poll.
     assert (TKs : forall g i k t, tick_ok s i k t -> tick_ok (mkState (now s) g (timers s) (effs s)) i k t)
       by (intros g i k t H; exact H).
-    assert (ORs : forall g i r t, origin_ok s i r t -> origin_ok (mkState (now s) g (timers s) (effs s)) i r t)
-      by (intros g i r t H; exact H).
-    assert (EXIT : forall r o, (forall i, o = Some i -> origin_ok s i r (now s)) ->
-                   g_status (tgt s) <> Stopped ->
-                   tgt_ok (mkState (now s) (tgt_exit (now s) r o (tgt s)) (timers s) (effs s))).
-    { intros r o OO NS. destruct (note_left_ok (now s) (tgt s) Hleft) as (NL1 & NL2).
-      constructor; simpl; auto.
-      - intros i k [].
-      - destruct Hdel as (rest & D1 & D2). exists (ticks (g_mbox (tgt s)) ++ rest). split; auto.
-        intros X; congruence.
-      - discriminate.
-      - discriminate.
-      - intros r' i t G. inversion G; subst. split; [lia|auto].
-      - intros r' o' te i k t G IN. inversion G; subst. apply Hlog in IN. lia.
-      - split; auto. discriminate.
-      - split; auto. split; [intro X; congruence|discriminate].
-      - discriminate. }
     assert (SAME : tgt_ok (mkState (now s) (tgt s) (timers s) (effs s))).
     { constructor; auto. }
-    destruct (g_status (tgt s)) eqn:ST; auto;
-      (destruct (g_kill (tgt s)) as [o|] eqn:GK;
-       [apply EXIT; [intros i ->; auto|congruence]|];
-       destruct (g_stop (tgt s)) as [[r o]|] eqn:GS;
-       [apply EXIT; [intros i ->; auto|congruence]|];
-       destruct (g_mbox (tgt s)) as [|[i k|] rest] eqn:MB;
-       [auto| | apply EXIT; [intros i; discriminate|congruence]]).
+    destruct (g_status (tgt s)) eqn:ST; auto.
+    all: destruct (g_kill (tgt s)) as [o|] eqn:GK;
+           [apply tgt_ok_exit; [auto|intros i ->; auto|congruence]|]; auto.
+    all: destruct (g_stop (tgt s)) as [[r o]|] eqn:GS;
+           [apply tgt_ok_stopping; [auto|intros i ->; auto|congruence]|].
+    all: destruct (g_mbox (tgt s)) as [|[i k|] rest] eqn:MB;
+           [auto| |apply tgt_ok_stopping; [auto|intros i; discriminate|congruence]].
     all: destruct Hdel as (rest' & D1 & D2); simpl in D1.
     all: constructor; simpl; rewrite ?ST; auto; try congruence.
     all: try (intros j k' IN; apply TKs; apply Hmb; right; auto; fail).
@@ -750,6 +767,13 @@ Proof.
     constructor; simpl; auto; try discriminate.
     + destruct Hdel as (rest & D1 & D2). exists rest. split; auto. intros _. apply D2. discriminate.
     + split; [intro X|discriminate]. apply Hest in X. discriminate.
+  - (* post_stop returns *)
+    pose proof OK as [Hmb Hlog Hdel Hstop Hkill Hexit Hexl Hest Hleft Hstart].
+    unfold step in *. simpl. unfold tgt_post_stop.
+    assert (SAME : tgt_ok (mkState (now s) (tgt s) (timers s) (effs s))) by (constructor; auto).
+    destruct (g_status (tgt s)) eqn:ST; auto.
+    destruct (g_stop (tgt s)) as [[r o]|] eqn:GS; auto.
+    apply tgt_ok_exit; [auto|intros i ->; auto|congruence].
 Qed.
 
 Lemma tgt_ok_init : forall t pk, tgt_ok (init t pk).
@@ -818,7 +842,7 @@ Lemma dead_stays_dead : forall s l,
 Proof.
   intros s l A.
   destruct (step_tgt s l) as
-    [(i & tm & w & F & TG)|[(TG & NF)|[(-> & TG)|[(r & -> & TG)|[(-> & TG)|[(-> & TG)|(-> & TG)]]]]]]; rewrite TG; auto.
+    [(i & tm & w & F & TG)|[(TG & NF)|[(-> & TG)|[(r & -> & TG)|[(-> & TG)|[(-> & TG)|[(-> & TG)|(-> & TG)]]]]]]]; rewrite TG; auto.
   - destruct w; simpl; auto.
     + destruct (tgt_stop_shape (RExitAfter (k_dur tm / ms)) (Some i) (tgt s)) as (E1 & _). rewrite E1. auto.
     + destruct (tgt_kill_shape (Some i) (tgt s)) as (E1 & _). rewrite E1. auto.
@@ -829,6 +853,8 @@ Proof.
   - destruct (tgt_kill_shape None (tgt s)) as (E1 & _). rewrite E1. auto.
   - unfold tgt_drain. rewrite A. auto.
   - unfold tgt_start. destruct (g_status (tgt s)) eqn:ST; simpl in *; rewrite ?ST; auto; try discriminate.
+  - unfold tgt_post_stop. destruct (g_status (tgt s)) eqn:ST; simpl in *; rewrite ?ST; auto.
+    destruct (g_stop (tgt s)) as [[? ?]|]; simpl; rewrite ?ST; auto.
 Qed.
 
 Lemma dead_no_sends : forall s l,
@@ -857,7 +883,7 @@ Lemma step_left : forall s l,
 Proof.
   intros s l.
   destruct (step_tgt s l) as
-    [(i & tm & w & F & TG)|[(TG & NF)|[(-> & TG)|[(r & -> & TG)|[(-> & TG)|[(-> & TG)|(-> & TG)]]]]]]; rewrite TG; auto.
+    [(i & tm & w & F & TG)|[(TG & NF)|[(-> & TG)|[(r & -> & TG)|[(-> & TG)|[(-> & TG)|[(-> & TG)|(-> & TG)]]]]]]]; rewrite TG; auto.
   - destruct w; simpl; auto.
     + destruct (tgt_stop_shape (RExitAfter (k_dur tm / ms)) (Some i) (tgt s)) as (_ & _ & _ & _ & _ & E & _). auto.
     + destruct (tgt_kill_shape (Some i) (tgt s)) as (_ & _ & _ & _ & _ & E & _). auto.
@@ -875,6 +901,8 @@ Proof.
   - unfold tgt_drain. destruct (accepts _); auto. simpl. unfold note_left.
     destruct (g_left (tgt s)); auto. destruct (is_active _); auto.
   - unfold tgt_start. destruct (g_status (tgt s)); auto.
+  - unfold tgt_post_stop. destruct (g_status (tgt s)); auto. destruct (g_stop (tgt s)) as [[r o]|]; auto.
+    simpl. unfold note_left. destruct (g_left (tgt s)); auto. destruct (is_active _); auto.
 Qed.
 
 Definition ival_ok (s : state) : Prop :=
@@ -1298,7 +1326,7 @@ Qed.
 Lemma run_tgt_is_run : forall pk f d, d_s d = run (rev (d_ls d)) (init 0 pk) ->
   d_s (run_tgt f d) = run (rev (d_ls (run_tgt f d))) (init 0 pk).
 Proof.
-  induction f; simpl; intros; auto. destruct (tgt_enabled _); auto.
+  induction f; simpl; intros; auto. destruct (tgt_next d); auto.
   apply IHf. simpl. rewrite run_snoc. congruence.
 Qed.
 
@@ -1307,8 +1335,8 @@ Lemma settle_is_run : forall pk tf f d, d_s d = run (rev (d_ls d)) (init 0 pk) -
 Proof.
   induction f; simpl; intros; auto. destruct (d_q d) as [|[i|] q]; auto.
   - apply IHf. unfold wake_tgt.
-    pose proof (run_timer_is_run pk tf i (mkDrv (d_s d) q (d_ls d)) H).
-    destruct (tgt_enabled _); auto.
+    pose proof (run_timer_is_run pk tf i (mkDrv (d_s d) q (d_ls d) (d_pg d)) H).
+    destruct (tgt_next _); auto.
   - apply IHf. apply run_tgt_is_run. auto.
 Qed.
 
@@ -1321,7 +1349,7 @@ Proof.
   { intros d' l H'. unfold dstep. cbn [d_s d_ls rev]. rewrite run_snoc. congruence. }
   assert (WT : forall d', d_s d' = run (rev (d_ls d')) (init 0 pk) ->
                d_s (wake_tgt d') = run (rev (d_ls (wake_tgt d'))) (init 0 pk)).
-  { intros d' H'. unfold wake_tgt. destruct (tgt_enabled _); auto. }
+  { intros d' H'. unfold wake_tgt. destruct (tgt_next _); auto. }
   destruct o.
   - exact (SN d (Mk k dur) H).
   - exact (SN d (Abort i) H).
@@ -1332,12 +1360,13 @@ Proof.
   - exact (SN _ (Advance dt) (settle_is_run pk tf f d H)).
   - exact (settle_is_run pk tf f d H).
   - exact (WT _ (SN d TgtStart H)).
+  - exact (WT (mkDrv (d_s d) (d_q d) (d_ls d) true) H).
 Qed.
 
 (* every scenario of the correspondence check is a run of the model: all theorems above
    apply to the states the driver reaches *)
-Theorem exec_is_run : forall pk ops,
-  d_s (fst (exec pk ops)) = run (rev (d_ls (fst (exec pk ops)))) (init 0 pk).
+Theorem exec_is_run : forall pk gt ops,
+  d_s (fst (exec pk gt ops)) = run (rev (d_ls (fst (exec pk gt ops)))) (init 0 pk).
 Proof.
   intros. unfold exec, exec_op. generalize FUEL. intro f.
   assert (G : forall ops dp, d_s (fst dp) = run (rev (d_ls (fst dp))) (init 0 pk) ->
@@ -1397,12 +1426,14 @@ Qed.
 
 Lemma frame_run_tgt : forall f d, same_frame d (run_tgt f d).
 Proof.
-  induction f; simpl; intros; [apply frame_refl|]. destruct (tgt_enabled _); [|apply frame_refl].
-  eapply frame_trans; [apply (frame_dstep d TgtPoll); reflexivity|apply IHf].
+  induction f; simpl; intros; [apply frame_refl|]. destruct (tgt_next d) as [l|] eqn:TN; [|apply frame_refl].
+  eapply frame_trans; [apply (frame_dstep d l)|apply IHf].
+  unfold tgt_next in TN. destruct (tgt_enabled _); [inversion TN; reflexivity|].
+  destruct (g_status _); try discriminate. destruct (d_pg d); inversion TN; reflexivity.
 Qed.
 
 Lemma frame_wake_tgt : forall d, same_frame d (wake_tgt d).
-Proof. intros. unfold wake_tgt. destruct (tgt_enabled _); apply frame_s; reflexivity. Qed.
+Proof. intros. unfold wake_tgt. destruct (tgt_next _); apply frame_s; reflexivity. Qed.
 
 Lemma frame_settle : forall tf f d, same_frame d (settle tf f d).
 Proof.
@@ -1444,6 +1475,7 @@ Proof.
     split; [lia|auto].
   - apply FR. apply frame_settle.
   - apply FR. eapply frame_trans; [apply (frame_dstep d TgtStart); reflexivity|apply frame_wake_tgt].
+  - apply FR. eapply frame_trans; [|apply frame_wake_tgt]. apply frame_s; reflexivity.
 Qed.
 
 Lemma scan_abort_statics : forall acc i ti t,
@@ -1487,13 +1519,13 @@ Proof.
 Qed.
 
 (* the safety clauses of the executable oracle accept every run of the model's driver *)
-Theorem oracle_sound_safety : forall pk ops, check_C12_safety ops (observe pk ops) = true.
+Theorem oracle_sound_safety : forall pk gt ops, check_C12_safety ops (observe pk gt ops) = true.
 Proof.
-  intros pk ops. unfold check_C12_safety, observe.
-  pose proof (exec_is_run pk (ops ++ [OSettle])) as ER.
-  assert (SC : map statics (timers (d_s (fst (exec pk (ops ++ [OSettle]))))) = map ti_statics (scan ops 0 [])).
+  intros pk gt ops. unfold check_C12_safety, observe.
+  pose proof (exec_is_run pk gt (ops ++ [OSettle])) as ER.
+  assert (SC : map statics (timers (d_s (fst (exec pk gt (ops ++ [OSettle]))))) = map ti_statics (scan ops 0 [])).
   { unfold exec, exec_op. rewrite <- (scan_settle ops 0 []). generalize FUEL. intro f. apply exec_scan; auto. }
-  destruct (exec pk (ops ++ [OSettle])) as (d, pr). cbn [fst] in *. cbn [o_log o_exit].
+  destruct (exec pk gt (ops ++ [OSettle])) as (d, pr). cbn [fst] in *. cbn [o_log o_exit].
   set (s := d_s d) in *.
   destruct (Inv2_run (rev (d_ls d)) 0 pk) as ((TO & EO & ND & SCm) & OK). pose proof (born_ok_run (rev (d_ls d)) 0 pk) as BO.
   rewrite <- ER in *.
